@@ -284,7 +284,7 @@ func c31VersionCompare(r *vlib.Run) {
 					fmt.Sprintf("Compare(%s, %s) = %d but Compare(%s, %s) = %d (decided at: %s)",
 						alphabet[i], alphabet[j], got, alphabet[j], alphabet[i], back, where), replay)
 			default:
-				r.Outcome(fmt.Sprintf("cmp/ok/%d/%s", want, where))
+				r.Outcome("cmp/ok/" + where)
 			}
 		}
 	}
